@@ -18,14 +18,47 @@ OPT_JSON = {"include_english": "english", "phonetic_suggestion": "phonetic_sugge
 VC_A = 0xA096
 
 
-def struct_of(prog, name, values):
-    """Build an Agg for a crate struct from a name->value dict, in the declaration order read from the source."""
+def unknown_field_value(prog, st, struct, fname):
+    """A field the crate declares and this machinery does not know (a refactor added it): an unconstrained value of its type, so that the
+    code reading it is executed rather than refused. What depends on it is reported only after a native search re-finds it."""
+    from mirsym.values import INT_BITS
+    t = prog.struct_field_types.get(struct, {}).get(fname, "").strip()
+    tag = "%s_%s" % (struct.lower(), fname)
+    if t == "bool":
+        return st.sym_bool(tag)
+    if t == "char":
+        return st.sym_char(tag)
+    if t in INT_BITS:
+        return st.sym_bv(tag, INT_BITS[t])
+    if t == "String":
+        b = z3.Bool(tag + "_empty")
+        if st.choose([b, z3.Not(b)]) == 0:
+            return SString([])
+        return SString([st.sym_char(tag + "_0")])
+    if t.startswith("Option<"):
+        return none()
+    if t.startswith("Vec<"):
+        return SVec([])
+    if t.startswith("HashMap<"):
+        return SMap(tag)
+    return Opaque("%s.%s" % (struct, fname))
+
+
+def struct_of(prog, name, values, st=None):
+    """Build an Agg for a crate struct from a name->value dict, in the declaration order read from the source. Fields this machinery does
+    not know are unconstrained values of their type when a path state is given, refused otherwise."""
     order = prog.structs.get(name)
     if order is None:
         raise Inconclusive("struct %s not found in the sources" % name)
     missing = [f for f in order if f not in values]
-    if missing:
+    if missing and st is None:
+        from mirsym import interp as _interp
+        st = _interp.CURRENT[0]
+    if missing and st is None:
         raise Inconclusive("struct %s has fields this harness does not know: %s" % (name, missing))
+    for f in missing:
+        values = dict(values)
+        values[f] = unknown_field_value(prog, st, name, f)
     return Agg("adt:" + name, None, [values[f] for f in order])
 
 
